@@ -131,6 +131,10 @@ def extract_internal_procedure(procedure, name):
     vars_to_resolve = [proc_var for v in vars_to_resolve if \
         (proc_var := procedure.variable_map.get(v.name))]
 
+    # An array used with different subscripts (``a(i)`` and ``a(1)``) is found once per use,
+    # but must become a single dummy argument.
+    vars_to_resolve = list(dict((v.name.lower(), v) for v in vars_to_resolve).values())
+
     # For each array in `vars_to_resolve`, append any non-literal shape variables to `vars_to_resolve`,
     # if not already there.
     arr_shapes = []
